@@ -652,7 +652,15 @@ def accessor_contracts(prog):
                 continue
             fn = fns[0]
             ev = Eval(prog, fn, ("param", 1))
-            s = {nu: ev.av(fn.terms.ret, nu) for nu in (0, 1)}
+            body = canon.through_checked(prog, fn.terms.ret)     # `try_low_raw(self).expect(..)`: the accepting paths
+            if body is not fn.terms.ret:
+                # the variant names of a match that now lives in the checked variant
+                for cs_ in fn.terms.calls:
+                    if cs_.callee.local or getattr(cs_.callee, "res_local", False):
+                        for h_ in prog.resolve(cs_.callee):
+                            for k_, v_ in h_.terms._discr_variants.items():
+                                ev.te._discr_variants.setdefault(k_, v_)
+            s = {nu: ev.av(body, nu) for nu in (0, 1)}
             which = nm.replace("_raw", "")
             want = {nu: {(("child", which), nu if nm.endswith("_raw") else 0)} for nu in (0, 1)}
             key = "%s::%s:contract" % (adt, nm)
